@@ -111,7 +111,7 @@ def verify_curve_caches(w):
 # ---- builders ----------------------------------------------------------------------------------
 
 RSA_ALPHA = ['strong-2048', 'fermat-128', 'shared-a', 'shared-b', 'bit-pattern-2048',
-             'keypair-2048', 'unseeded-1024', 'nm1-a', 'nm1-b']
+             'keypair-2048', 'unseeded-1024', 'nm1-a', 'nm1-b', 'permuted-pattern-1024']
 JOINT = {'rsa': ['CheckGCD', 'CheckGCDN1'], 'ec': ['CheckECKeySmallDifference'],
          'ecdsa': ['CheckLCGNonceGMP', 'CheckLCGNonceJavaUtilRandom', 'CheckNonceMSB',
                    'CheckNonceCommonPrefix', 'CheckNonceCommonPostfix', 'CheckNonceGeneralized',
@@ -375,7 +375,7 @@ def plan(tier, seed):
     if i % 2:
       part = part[::-1]
     T.append(Task('rsa-sessions', 'session', {'family': 'rsa', 'batches': part, 'skip': []},
-                  bound='every ordered batch <= 3 over 9 RSA keys (quick: every 12th triple) through '
+                  bound='every ordered batch <= 3 over 10 RSA keys (quick: every 12th triple) through '
                   'the 17 singleton checks, in 8 sessions', weight=len(part) * 3e6))
   for chk in JOINT['rsa']:
     T.append(Task('joint-permutations', 'joint',
